@@ -170,4 +170,19 @@ theorem mutual_inverse_from_10 :
       tables.toSolexa (tables.toPhred (Int8.ofInt q)) = Int8.ofInt q := by
   decide +kernel
 
+/-- "so they agree with each other's error probabilities": for 1 ≤ q ≤ 126 the error
+    probability of the converted Solexa score has odds within a factor 10^(1/20) (half a score)
+    of the odds of the Phred score's probability … -/
+theorem conversion_probabilities_agree_phred :
+    ∀ q < 127, 1 ≤ q →
+      oddsAgree (tables.probSolexa (tables.toSolexa (UInt8.ofNat q))) (tables.probPhred (UInt8.ofNat q)) = true := by
+  decide +kernel
+
+/-- … and for -127 ≤ qs ≤ 126 the probability of the converted Phred score is within a factor
+    10^(1/20) of the Solexa score's probability. -/
+theorem conversion_probabilities_agree_solexa :
+    ∀ n < 255, 1 ≤ n →
+      probsAgree (tables.probPhred (tables.toPhred (Int8.ofInt (sc n)))) (tables.probSolexa (Int8.ofInt (sc n))) = true := by
+  decide +kernel
+
 end Biogo.Properties.C18
